@@ -128,14 +128,12 @@ def expected(adj, n):
     if has_reachable_cycle(adj):
         return ("error", "cycle")
     lp = longest_path(adj)
-    if lp >= LIMIT + 1:
-        # some path exceeds the limit
+    if lp >= LIMIT:
+        # a path of LIMIT imports is a chain of LIMIT + 1 packages, i.e. LIMIT + 1 nested loads: one more than the tool's
+        # MaxImportRecursionDepth = 10. (An earlier version of this check treated exactly LIMIT imports as don't-care; the constant is a
+        # *recursion depth*, which counts packages, so the boundary is pinned: 10 packages in a line load, 11 do not.)
         sd = shortest_depths(adj)
-        return ("error", "depth") if max(sd.values()) >= LIMIT + 1 else ("error-or-order", "depth via long arm only")
-    if lp == LIMIT:
-        # whether a package exactly LIMIT imports below the root is "deeper than the limit" is not pinned
-        # down by the property: boundary is don't-care (the tool rejects it)
-        return ("dontcare", "exactly at the limit")
+        return ("error", "depth") if max(sd.values()) >= LIMIT else ("error-or-order", "depth via long arm only")
     return ("ok", reach(adj))
 
 
@@ -289,6 +287,26 @@ def special(ctx, home):
         os.symlink("p1", os.path.join(base, "link1"))
         return d
     case("same-dir-via-symlink", symlink, 0, "rejected:symlink", "one directory reached directly and through a symlink is one package, not a namespace conflict")
+
+    # the same *relative import text* written in packages that live in different parent directories names different directories
+    def same_relative_text(base):
+        files = {"ws/left/common/_package.yml": "namespace: LeftCommon\n", "ws/left/common/c.yml": "LT: !record\n  fields:\n    l: int\n",
+                 "ws/right/common/_package.yml": "namespace: RightCommon\n", "ws/right/common/c.yml": "RT: !record\n  fields:\n    r: string\n",
+                 "ws/left/a/_package.yml": "namespace: PkgA\nimports:\n  - ../common\n", "ws/left/a/a.yml": "AX: !record\n  fields:\n    x: LeftCommon.LT\n",
+                 "ws/right/b/_package.yml": "namespace: PkgB\nimports:\n  - ../common\n", "ws/right/b/b.yml": "BY: !record\n  fields:\n    y: RightCommon.RT\n",
+                 "ws/root/_package.yml": "namespace: Root\nimports:\n  - ../left/a\n  - ../right/b\njson:\n  outputDir: ../../out/json\n",
+                 "ws/root/m.yml": "Top: !record\n  fields:\n    a: PkgA.AX\n    b: PkgB.BY\nP: !protocol\n  sequence:\n    t: Top\n"}
+        common.write_tree(base, files)
+        return os.path.join(base, "ws", "root")
+    for order in ("ab", "ba"):
+        def build(base, order=order):
+            d = same_relative_text(base)
+            if order == "ba":
+                mp = os.path.join(d, "_package.yml")
+                open(mp, "w").write(open(mp).read().replace("  - ../left/a\n  - ../right/b\n", "  - ../right/b\n  - ../left/a\n"))
+            return d
+        p = case("same-relative-import-text-" + order, build, 0, "rejected-valid-graph:same-relative-text",
+                 "two packages in different parent directories both import '../common' (two different directories): a valid graph")
 
     # chains around the limit: k packages in a line
     for k in (9, 10, 11, 12, 13):
